@@ -6,9 +6,9 @@
    `from <tip>`), so a blob once written stays reachable through the history of the ref; a write
    therefore only ever ADDS a blob.
 
-   The writers, their taint flags, the arms of the storage-mode match of post_commit, the
-   resolution order of effective_prompt_storage and the cannot_refetch table of append_checkpoint
-   come from the source (Gen.GenNoteWriters). *)
+   The writers, their taint flags, the arms of each writer's storage-mode match (post_commit,
+   rewrite_authorship_after_commit_amend), the resolution order of effective_prompt_storage and the
+   cannot_refetch table of append_checkpoint come from the source (Gen.GenNoteWriters). *)
 From Verif Require Import Base.Str.
 From Verif Require Import Gen.GenSecrets Gen.GenNoteWriters Model.Redact.
 Open Scope N_scope.
@@ -85,25 +85,26 @@ Section WithClassifier.
 
   (* ARedactThenCas: redact, enqueue to the CAS queue; the enqueue clears the messages of every record
      (cas_success_clears); when it fails the failure arm runs *)
-  Definition run_action (e : env) (a : action) (l : note) : outcome note :=
+  Definition run_action (e : env) (failure : action) (a : action) (l : note) : outcome note :=
     match a with
     | ARedactThenCas =>
         match redact_log l with
         | Panic => Panic
         | Ok l' =>
             if e_cas_ok e then Ok (if cas_success_clears then strip_log l' else l')
-            else run_simple arm_cas_failure l'
+            else run_simple failure l'
         end
     | _ => run_simple a l
     end.
 
-  Definition filter_log (m : smode) (e : env) (l : note) : outcome note :=
+  (* the storage-mode match of one writer *)
+  Definition filter_log (a : arms) (m : smode) (e : env) (l : note) : outcome note :=
     match m with
-    | MLocal => run_action e arm_local l
-    | MNotes => run_action e arm_notes l
+    | MLocal => run_action e (a_cas_failure a) (a_local a) l
+    | MNotes => run_action e (a_cas_failure a) (a_notes a) l
     | MDefault =>
-        if e_logged_in e then run_action e arm_default_logged_in l
-        else run_action e arm_default_logged_out l
+        if e_logged_in e then run_action e (a_cas_failure a) (a_default_in a) l
+        else run_action e (a_cas_failure a) (a_default_out a) l
     end.
 
   (* ---------- one note-writer step ---------- *)
@@ -128,12 +129,14 @@ Section WithClassifier.
   (* a panic while filtering aborts the hook: nothing is written *)
   Definition write (w : writer) (m : smode) (e : env) (ns : notes) (src : source) : notes :=
     let l := built_log w ns src in
-    if w_filtered w then
-      match filter_log m e l with
-      | Ok l' => l' :: ns
-      | Panic => ns
-      end
-    else l :: ns.
+    match w_arms w with
+    | Some a =>
+        match filter_log a m e l with
+        | Ok l' => l' :: ns
+        | Panic => ns
+        end
+    | None => l :: ns
+    end.
 
   Record step := mkStep { st_writer : writer; st_mode : smode; st_env : env; st_source : source }.
 
@@ -154,15 +157,36 @@ Definition inv_cleanb (ns : notes) : bool := forallb (forallb (fun p => msgs_nil
 
 (* ---------- the inventory check ---------- *)
 
+Definition is_strip (a : action) : bool := match a with AStrip => true | _ => false end.
+Definition is_redact (a : action) : bool := match a with ARedact => true | _ => false end.
+
+(* an action after which no record has messages left, whatever the environment *)
+Definition clears (failure a : action) : bool :=
+  match a with
+  | AStrip => true
+  | ARedactThenCas => cas_success_clears && is_strip failure
+  | ARedact | AKeep => false
+  end.
+
+(* the writer applies a storage-mode match that leaves no messages in Local and Default mode *)
+Definition w_filtered (w : writer) : bool :=
+  match w_arms w with
+  | Some a => clears (a_cas_failure a) (a_local a) && clears (a_cas_failure a) (a_default_in a)
+              && clears (a_cas_failure a) (a_default_out a)
+  | None => false
+  end.
+
+(* ... and redacts in Notes mode *)
+Definition w_redacts_in_notes (w : writer) : bool :=
+  match w_arms w with Some a => is_redact (a_notes a) | None => false end.
+
 Definition safe_writer (w : writer) : bool := w_filtered w || source_is_notes w.
 
-(* rewrite_authorship_after_commit_amend *)
-Definition amend_fn_name : list N :=
-  [114; 101; 119; 114; 105; 116; 101; 95; 97; 117; 116; 104; 111; 114; 115; 104; 105; 112; 95; 97; 102; 116;
-   101; 114; 95; 99; 111; 109; 109; 105; 116; 95; 97; 109; 101; 110; 100].
-
-Definition known_unsafe (w : writer) : bool := str_eqb (w_fn w) amend_fn_name.
-
-Definition inventory_ok (ws : list writer) : bool := forallb (fun w => safe_writer w || known_unsafe w) ws.
+(* no exception list: every writer of the inventory must be filtered or notes-sourced *)
+Definition inventory_ok (ws : list writer) : bool := forallb safe_writer ws.
 
 Definition unsafe_writers (ws : list writer) : list writer := filter (fun w => negb (safe_writer w)) ws.
+
+(* every writer that may carry working-log records into a note in Notes mode masks them *)
+Definition inventory_notes_ok (ws : list writer) : bool :=
+  forallb (fun w => source_is_notes w || w_redacts_in_notes w) ws.
